@@ -14,7 +14,7 @@ ENV = {"TSAN_OPTIONS": "halt_on_error=1:exitcode=66:report_signal_unsafe=0"}
 
 def cfgs(tier):
     if tier == "quick":
-        return [Cfg("c64", instr="tsan"), Cfg("asm", instr="tsan")]
+        return [Cfg("c64", instr="tsan"), Cfg("asm", instr="tsan"), Cfg("c32", 3, 3, 3, instr="tsan")]
     return [Cfg("c64", instr="tsan"), Cfg("asm", instr="tsan"), Cfg("c32", 3, 3, 3, instr="tsan"), Cfg("dxor", instr="tsan"), Cfg("generic", instr="tsan"), Cfg("c64", 2, 1, 2, instr="tsan"), Cfg("asm", 4, 4, 4, instr="tsan")]
 
 
